@@ -95,7 +95,7 @@ func main() {
 	}
 	var jobs []job
 	if run.Quick() {
-		for _, c := range pickQuick(run.Rand("select"), all, 86) {
+		for _, c := range pickQuick(run.Rand("select"), all, 104) {
 			jobs = append(jobs, job{c, 0})
 			if staleShape(c) {
 				// the outcome of this shape depends on the order in which the tool visits the target's
@@ -177,6 +177,12 @@ func pickQuick(r *rand.Rand, all []combo, n int) []combo {
 		}
 		if c.TFault == "reset" && c.Src == "failover-early" {
 			add(c) // 4: both backends, restart and in-loop
+		}
+		if c.TFault == "startup" && c.Src == "failover-early" {
+			add(c)
+		}
+		if c.Idle && (c.Src == "same" || (c.Src == "failover-late" && c.Backend == "disk")) {
+			add(c)
 		}
 		if c.TFault == "setrunid" && (c.Src == "failover-early" || (c.Src == "failover-late" && !c.Drop && c.Backend == "disk")) {
 			add(c)
@@ -290,10 +296,14 @@ func oneCase(run *harness.Run, key string, c combo, tmp string, n int) {
 		return
 	}
 
-	// the live part of the second session
-	p.H2.appendPiece(genPiece(r, "l", 8+r.Intn(12), p.PTxn))
-	stEnd, end2 := sentinelPiece("eb", p.H2.Cmds[len(p.H2.Cmds)-1].DB)
-	p.H2.appendPiece(stEnd)
+	// the live part of the second session (none when the source stays idle)
+	end2 := ""
+	if !c.Idle {
+		p.H2.appendPiece(genPiece(r, "l", 8+r.Intn(12), p.PTxn))
+		stEnd, id2 := sentinelPiece("eb", p.H2.Cmds[len(p.H2.Cmds)-1].DB)
+		p.H2.appendPiece(stEnd)
+		end2 = id2
+	}
 
 	var s2 *sessLog
 	var pre preState
@@ -447,6 +457,14 @@ func oneCase(run *harness.Run, key string, c combo, tmp string, n int) {
 	if stopped {
 		checkCacheAfter(p, pre, cache, v)
 	}
+	// a reconnect that ended in a continuation: a fresh instance must still find a position, and not an older one
+	if stopped && !pre.PosAbsent && strings.HasPrefix(v.Outcome, "continued") && len(v.Findings) == 0 {
+		fin := readPosition(cr.tgt)
+		if fin.Absent || fin.Off < pre.Pos {
+			v.add("position-regressed-after-granted-continuation|at-end"+fmt.Sprintf("|pos=%s|cache=%s|src=%s", p.posClass(pre.PosID, pre.Pos, pre.PosAbsent), shortCache(p, pre), p.C.Src),
+				"after the reconnect was continued from (%s,%d) and the tool was stopped, the target stores %+v", short(pre.PosID), pre.Pos, fin)
+		}
+	}
 	run.Eval(1)
 	posC, cacheC := p.posClass(pre.PosID, pre.Pos, pre.PosAbsent), p.cacheClass(pre)
 	nCont, nFull := 0, 0
@@ -500,7 +518,7 @@ func oneCase(run *harness.Run, key string, c combo, tmp string, n int) {
 		run.Violation(f.Sig, key, f.What, witness())
 	}
 	switch s2.Ended {
-	case "sentinel":
+	case "sentinel", "idle-acked":
 	case "refused", "tool-exited":
 		// a fail-safe refusal delivers nothing: not a violation of this property; recorded
 		run.Count("reconnects_refused_by_the_tool", 1)
@@ -540,9 +558,9 @@ func oneCase(run *harness.Run, key string, c combo, tmp string, n int) {
 		run.Inconclusive("%s: the tool did not stop", key)
 	}
 	if len(s2.Psync) > 0 || s2.Ended == "refused" {
-		run.Distinct(fmt.Sprintf("%s|%s|%s|%s|%s|drop=%v|tfault=%s|%s", c.Src, posC, cacheC, c.Backend, c.Restart, c.Drop, c.TFault, v.Outcome))
+		run.Distinct(fmt.Sprintf("%s|%s|%s|%s|%s|drop=%v|tfault=%s|idle=%v|%s", c.Src, posC, cacheC, c.Backend, c.Restart, c.Drop, c.TFault, c.Idle, v.Outcome))
 	}
-	if len(v.Findings) == 0 && s2.Ended == "sentinel" {
+	if len(v.Findings) == 0 && (s2.Ended == "sentinel" || s2.Ended == "idle-acked") {
 		run.Sample(map[string]any{"case": key, "constructed": p.Constructed, "position": posC, "cache": cacheC, "psync": psyncStrings(s2.Psync),
 			"outcome": v.Outcome, "writes_compared": v.Compared, "snapshot_keys": v.SnapKeys})
 	}
